@@ -34,6 +34,7 @@ class Gen:
     self.rules = []
     self.used_features = {}
     self._reserved = set()
+    self._reserved_rule_level = set()
     self._taken = set()
     self._call_bound = set()
 
@@ -54,7 +55,8 @@ class Gen:
     if t == 'bool':
       return ('bool', r.random() < 0.5)
     if t[0] == 'list':
-      return ('list', tuple(self.const(t[1]) for _ in range(r.choice([0, 1, 2, 2, 3]))))
+      sizes = [1, 2, 2, 3] if self.f.get('typed') else [0, 1, 2, 2, 3]     # an empty list literal has no ground element type
+      return ('list', tuple(self.const(t[1]) for _ in range(r.choice(sizes))))
     if t[0] == 'rec':
       return ('rec', tuple((f, self.const(ft)) for f, ft in t[1]))
     raise ValueError(t)
@@ -225,7 +227,7 @@ class Gen:
 
   # -- bodies --------------------------------------------------------------------------------
   def fresh_var(self, bound, hint=None):
-    taken = set(bound) | self._taken | self._reserved
+    taken = set(bound) | self._taken | self._reserved | self._reserved_rule_level
     cands = [v for v in VAR_NAMES if v not in taken]
     if hint and hint not in taken and self.rng.random() < 0.5:
       v = hint
@@ -361,6 +363,7 @@ class Gen:
     r = self.rng
     self._taken = set()
     self._reserved = set()
+    self._reserved_rule_level = set()
     self._call_bound = set()
     bound = {}
     lits = []
@@ -413,6 +416,7 @@ class Gen:
           elif f is None and c != 'logica_value':
             w = self.fresh_var(b2)
             b2[w] = ct
+            self._reserved_rule_level.add(w)     # mentioned at rule level in one DNF branch: never a combine-local name
             args.append((None, ir.V(w)))
         alts.append(('call', name, tuple(args)))
     bound[v] = t
@@ -457,6 +461,7 @@ class Gen:
       return self.gen_expr(t, b, 1, False), t
     if op == 'Count=':
       t = self.scalar_type()
+      self._last_count_arg_type = t
       return self.gen_expr(t, b, 1, False), 'int'
     t = self.scalar_type()
     return self.gen_expr(t, b, 1, False), ('list', t)
@@ -505,6 +510,7 @@ class Gen:
     rules = []
     col_types = None
     agg_ops = None
+    count_arg_types = {}
     for k in range(n_rules):
       lits, bound = self.gen_body(exclude=(name,))
       scal = {v: t for v, t in bound.items()}
@@ -533,6 +539,8 @@ class Gen:
         for i, op in agg_ops.items():
           if col_types is None:
             e, t = self.agg_expr(op, bound)
+            if op == 'Count=':
+              count_arg_types[i] = self._last_count_arg_type
             if i == 'value':
               value = [e, op]
               types[-1] = t
@@ -540,7 +548,7 @@ class Gen:
               args[i] = [args[i][0], e, op]
               types[i] = t
           else:
-            e = self.agg_expr_typed(op, bound, col_types[-1] if i == 'value' else col_types[i])
+            e = self.agg_expr_typed(op, bound, col_types[-1] if i == 'value' else col_types[i], count_arg_types.get(i))
             if i == 'value':
               value = [e, op]
             else:
@@ -574,14 +582,15 @@ class Gen:
     self.order.append(name)
     return name
 
-  def agg_expr_typed(self, op, bound, t):
+  def agg_expr_typed(self, op, bound, t, count_arg_type=None):
     """Aggregated expression for a later rule of a multi-body aggregation: must produce the fixed type."""
     if op in ('ArgMin=', 'ArgMax='):
       return ('arrow', self.gen_expr(t, bound, 1, False), self.gen_expr('int', bound, 1, False))
     if op in ('List=', 'Set='):
       return self.gen_expr(t[1], bound, 1, False)
     if op == 'Count=':
-      return self.gen_expr(self.scalar_type(), bound, 1, False)
+      # all bodies of a multi-body aggregation feed one auxiliary column: the counted expressions share a type
+      return self.gen_expr(count_arg_type or 'int', bound, 1, False)
     return self.gen_expr(t, bound, 1, False)
 
   def pick_head_type(self, bound, t0, scalar_only=False):
